@@ -169,6 +169,9 @@ def step (s : St) (line : String) : St × String :=
           | some (g, sh) => s!"{g}.{sh}"
         ({ s with data := d', k := d'.index }, "ok " ++ joinCsv (m.map show1))
     | _, _ => (s, "bad-op")
+  -- the local deletion of an expired shard on a real store: the unexpired shard of the same
+  -- database keeps every series and point (judged on the implementation's side)
+  | ["localdel", _, _, _] => (s, "kept")
   | ["pass", now, loc, fsg, fsh, fpr] =>
     match now.toInt?, allSome ((splitCsv loc).map String.toNat?), allSome ((splitCsv fsg).map String.toNat?),
           allSome ((splitCsv fsh).map String.toNat?) with
